@@ -29,7 +29,14 @@ fn length_case(rng: &mut Rng, idx: u64, rec: &mut Rec) {
         stream.extend_from_slice(NEXT);
     }
     let http10 = rng.chance(1, 4);
-    let status = *rng.pick(&[200u16, 200, 201, 404, 500, 301, 302, 307, 300, 399]);
+    // the request: mostly plain; one in five asked with HTTP/1.0, one in eight a CONNECT that is turned down
+    // (only a 2xx answer to CONNECT has no body)
+    let req_kind = match rng.below(40) {
+        0..=7 => "http10-request",
+        8..=12 => "connect-refused",
+        _ => "plain",
+    };
+    let status = if req_kind == "connect-refused" { *rng.pick(&[407u16, 403, 502, 302, 400]) } else { *rng.pick(&[200u16, 200, 201, 404, 500, 301, 302, 307, 300, 399]) };
     let redirect = (300..400).contains(&status);
     // a chunked coding on an HTTP/1.0 response is not defined and ignored: the length still rules
     let te10 = http10 && rng.chance(1, 3);
@@ -66,6 +73,17 @@ fn length_case(rng: &mut Rng, idx: u64, rec: &mut Rec) {
             Some(f) => f,
             None => return rec.fail("C08/setup", "expect route".into()),
         }
+    } else if req_kind == "http10-request" {
+        rec.cov("length/http10-request");
+        let mut cfg = ReqCfg::new(*rng.pick(&["GET", "POST"]), "http://h.test/");
+        cfg.ver = Ver::V10;
+        match fast_to_recv(&cfg) {
+            Ok(f) => f,
+            Err(e) => return rec.fail("C08/setup", e),
+        }
+    } else if req_kind == "connect-refused" {
+        rec.cov("length/connect-refused");
+        super::c05::recv_flow("CONNECT")
     } else {
         super::c05::recv_flow(*rng.pick(&["GET", "POST", "DELETE"]))
     };
@@ -107,6 +125,27 @@ fn length_case(rng: &mut Rng, idx: u64, rec: &mut Rec) {
             );
         }
     } else {
+        if rng.chance(1, 3) {
+            // the head arrives in two pieces: a look at the first one (cut anywhere, for a redirect preferably
+            // right behind its Location line) learns nothing, and the body starts behind the whole head
+            let hb = head.as_bytes();
+            let cut = if redirect && rng.chance(1, 2) {
+                let after_loc = head.find("Location: /next\r\n").map(|i| i + "Location: /next\r\n".len()).unwrap_or(1);
+                (after_loc + rng.usize_in(0, 3)).min(hb.len() - 1)
+            } else {
+                rng.usize_in(1, hb.len() - 1)
+            };
+            rec.cov(if redirect { "length/head-in-two-pieces/3xx" } else { "length/head-in-two-pieces/other" });
+            match f.try_response(&hb[..cut]) {
+                Ok((0, None)) => {}
+                other => {
+                    return rec.fail(
+                        "C08/head-decided-before-complete",
+                        format!("{} bytes of a {} byte head ({} request, status {}): {:?} - the body starts behind the whole head", cut, hb.len(), req_kind, status, other.map(|v| (v.0, v.1.is_some()))),
+                    )
+                }
+            }
+        }
         match f.try_response(head.as_bytes()) {
             Ok((k, Some(_))) if k == head.len() => {}
             other => return rec.fail("C08/setup", format!("{:?}", other.map(|v| v.0))),
@@ -114,7 +153,7 @@ fn length_case(rng: &mut Rng, idx: u64, rec: &mut Rec) {
     }
     let mut b = match f.proceed() {
         Some(RecvResponseResult::RecvBody(b)) => b,
-        _ => return rec.fail("C08/no-body-state", format!("Content-Length {} did not lead to the body state", n)),
+        _ => return rec.fail("C08/no-body-state", format!("Content-Length {} ({} request, status {}) did not lead to the body state", n, req_kind, status)),
     };
     if mode_of(b.body_mode()) != Mode::Length(n) {
         return rec.fail("C08/mode", format!("body_mode() = {:?} for Content-Length {}", b.body_mode(), n));
@@ -186,12 +225,13 @@ fn length_case(rng: &mut Rng, idx: u64, rec: &mut Rec) {
         }
         match b.proceed() {
             Some(RecvBodyResult::Cleanup(c)) if !redirect => {
-                if c.must_close_connection() {
+                // (an HTTP/1.0 request is a close condition of its own: C10)
+                if c.must_close_connection() != (req_kind == "http10-request" && !late_100) {
                     return rec.fail("C08/length-body-forces-close", format!("a length delimited exchange without any close condition demands closing: {:?}", c.close_reason()));
                 }
             }
             Some(RecvBodyResult::Redirect(r)) if redirect => {
-                if r.must_close_connection() {
+                if r.must_close_connection() != (req_kind == "http10-request" && !late_100) {
                     return rec.fail("C08/length-body-forces-close", format!("a length delimited redirect without any close condition demands closing: {:?}", r.close_reason()));
                 }
             }
@@ -246,7 +286,16 @@ fn close_case(rng: &mut Rng, idx: u64, rec: &mut Rec) {
             None => return rec.fail("C08/setup", "refused-expect route".into()),
         }
     } else {
-        super::c05::recv_flow(*rng.pick(&["GET", "POST"]))
+        let m = *rng.pick(&["GET", "POST", "GET", "POST", "CONNECT"]);
+        if m == "CONNECT" && !(200..300).contains(&status) {
+            // a CONNECT that is turned down is answered like any other request
+            rec.cov("close/connect-refused");
+        }
+        if m == "CONNECT" && (200..300).contains(&status) {
+            super::c05::recv_flow("GET")
+        } else {
+            super::c05::recv_flow(m)
+        }
     };
     match f.try_response(head.as_bytes()) {
         Ok((k, Some(_))) if k == head.len() => {}
@@ -382,7 +431,7 @@ impl Property for P {
     fn floors(&self, _tier: Tier) -> Vec<(String, u64)> {
         [
             "length/window<left/*", "length/window=left/*", "length/window>left/out>=window", "length/window>left/out<window", "length/window>left/out=0", "length/read-after-complete", "close/out=0", "close/out<window", "close/out>=window",
-            "close/proceed-early", "close/proceed-at-end", "close/with-four-other-close-reasons", "length/status-3xx", "length/behind-a-late-100", "length/status-other/http10-with-ignored-chunked", "close/redirect-with-unapplied-coding", "close/proceed-to-redirect",
+            "length/http10-request", "length/connect-refused", "close/connect-refused", "length/head-in-two-pieces/3xx", "close/proceed-early", "close/proceed-at-end", "close/with-four-other-close-reasons", "length/status-3xx", "length/behind-a-late-100", "length/status-other/http10-with-ignored-chunked", "close/redirect-with-unapplied-coding", "close/proceed-to-redirect",
         ]
         .iter()
         .map(|k| (k.to_string(), 50))
